@@ -101,6 +101,11 @@ claim('C11', 'devx+bfs',
       'Every assignment of 16 configuration dimensions (7 issuer forms incl. host- and Forwarded-derived; each of the six endpoints default / custom with and without leading slash / trailing slash / deep path / external URL; WantAuthRequestsSigned in five spellings; encryption algorithm, organisation, contact, validity, cache duration, metadata signing; three request Hosts; response-key rotation) with <= 2 (quick) / <= 3 (thorough) deviations. For each configuration and Host: the metadata must be one well-formed EntityDescriptor; a conformant request of each kind addressed to each advertised SSO / SLO / AttributeService location and sent to the route that location maps onto must get that kind\'s positive outcome; entityID must equal the Issuer of the SSO error reply, callback success and failure replies, assertion, LogoutResponses and attribute-query response; the signing KeyDescriptor must equal the certificate endpoint\'s certificate and verify the issued assertion (also after the response key is rotated); WantAuthnRequestsSigned must be advertised true exactly when an unsigned request is refused.',
       'External-URL endpoints cannot be mapped onto routes.', '§5 C11')
 
+claim('C15', 'sched+bfs+race',
+      'stateless model checking of the real handlers under a cooperative scheduler (depth-first over schedules with an iterated preemption bound), plus exhaustive sequential histories and a free-running race-detector companion',
+      'For 120 pairs (every unordered pair of 15 request bodies incl. each body with itself: SSO accepted / rejected, callbacks for three completed sessions, for an unknown id and for a pending session, logout x2, attribute query x2, metadata for two Hosts, certificate) and 3 triples, every interleaving of the real ServeHTTP calls on ONE provider within preemption bound 1 (quick) / 2 (thorough) is executed: scheduling points are the entries of every repository function and function literal, every storage call, every sync-shim operation and every go statement (all inserted by the build-time overlay; sync is replaced by a scheduler-aware shim so a change that adds a lock or pool is explored, not hung). Oracle per execution: each reply with IDs and signature bytes masked equals the reply the same request gets alone on a fresh provider; no reply or storage call carries another session\'s marker; all response / assertion / metadata IDs over all threads and executions are distinct NCNames; no deadlock or horizon overflow; replaying the default schedule reproduces the identical (thread, point) trace. Companions: every sequence of <= 2 (quick) / <= 3 (thorough) requests on one provider gives each request its solo reply; the same bodies run free in a -race build (32 goroutines x 40 rounds).',
+      'The scheduler does not interleave inside a function body between two points nor inside the Go runtime / third-party libraries; data races there are only reachable by the race companion, which is a free-running (non-exhaustive) run reported as companion evidence. N is 2-3 threads.', '§5 C15')
+
 NOT_YET = {i: 'check not built yet in this revision (planned: see DESIGN.md §5 %s); not claimed until its machinery exists' % i for i in ids}
 
 def main():
@@ -136,6 +141,8 @@ def main():
              'kind_free_text': 'deviation-bounded / full-product exhaustive enumeration of input and configuration shapes executed on the real code'},
             {'name': 'bfs', 'path': 'harness/internal/props (history loops in c05/c06/c08/c13/c03/c02)', 'serves_properties': sorted(k for k in C if 'bfs' in C[k]['engine']),
              'kind_free_text': 'explicit enumeration of event histories on one real provider (replay on a fresh world per history)'},
+            {'name': 'sched', 'path': 'harness/internal/sched', 'serves_properties': sorted(k for k in C if 'sched' in C[k]['engine']),
+             'kind_free_text': 'cooperative scheduler over overlay-inserted scheduling points; DFS over choice sequences with preemption bounding; replay determinism check'},
             {'name': 'faultx', 'path': 'harness/internal/props/c10.go', 'serves_properties': sorted(k for k in C if C[k]['engine']=='faultx'),
              'kind_free_text': 'exhaustive storage fault-point enumeration (singles, pairs, triples) on re-discovered call traces'},
         ],
